@@ -21,6 +21,8 @@ type Gen struct {
 	MaxDepth int
 	// Density is the probability that a field is populated.
 	Density float64
+	// NoSort leaves repeated message fields in generation order (default: sorted by the elements' name field).
+	NoSort bool
 }
 
 func New(r *rand.Rand) *Gen {
@@ -96,7 +98,7 @@ func (g *Gen) fill(m protoreflect.Message, depth int) {
 					l.Append(g.scalar(fd))
 				}
 			}
-			if isMsg {
+			if isMsg && !g.NoSort {
 				sortByName(l, fd.Message())
 			}
 			if l.Len() == 0 {
